@@ -18,6 +18,8 @@ def sigOf : String → Option String
   | "MkCounter" => some "i" | "MkPair" => some "i" | "MkAdder" => some "i" | "CallFn" => some "ii"
   | "MkSq" => some "i" | "MkRc" => some "ii" | "DupShape" => some "i" | "Area" => some "i"
   | "Grow" => some "ii" | "SetAny" => some "ii" | "AnyStr" => some "i" | "Render" => some "i"
+  | "MkPairs" => some "i" | "ClonePairs" => some "i" | "DupPairs" => some "i"
+  | "AppPair" => some "iii" | "SetPair" => some "iiii" | "GetPairs" => some "i"
   | _ => none
 
 /-- strconv.Atoi-compatible: optional sign, decimal digits only -/
